@@ -720,7 +720,6 @@ package gtab
 //@   ensures next == -1 || (a < next && next <= b)
 //@   ensures forall i int :: 0 <= i && i < len(ctx.seq) ==> ctx.seq[i].GID == old(ctx.seq[i].GID)
 //@   return_assert next >= 0 ==> a < p && p < b && has(l, glyph.Pair{g1.GID, g2.GID}) && next == ite(adj.Second == nil, p, p + 1)
-//@   may_panic
 // GPOS type 2: the partner is the first glyph after a that the lookup flags keep (the very next glyph without a filter); the first value record adjusts the first glyph, the second the partner; nothing else changes; a failed match changes nothing
 //@   return_assert next >= 0 ==> keptG(keep, seq[p].GID) && forall q int :: a < q && q < p ==> !keptG(keep, seq[q].GID)
 //@   return_assert next >= 0 ==> adj == l[glyph.Pair{old(ctx.seq[a].GID), old(ctx.seq[p].GID)}]
